@@ -41,6 +41,7 @@ class Path:
         self.asserts = []        # (cond_term, msg, index in events)
         self.nret = 0
         self.visited = []
+        self.heap = {}           # event index of a call result -> values stored through pointers derived from it
 
     def fork(self):
         p = Path()
@@ -53,6 +54,7 @@ class Path:
         p.asserts = list(self.asserts)
         p.nret = self.nret
         p.visited = list(self.visited)
+        p.heap = dict(self.heap)
         return p
 
 
@@ -160,6 +162,26 @@ class Executor:
 
     def write(self, p, t, path):
         p = self.resolve(p, path)
+        i = p.find("^")
+        if i > 0:
+            # a store through an opaque pointer: remember it with the call result the pointer was derived from
+            # (e.g. the allocation a `vec![..]` literal is written into), so that data flow can follow it
+            v = path.mem.get(p[:i])
+            for _ in range(12):
+                if not isinstance(v, tuple) or not v:
+                    break
+                if v[0] == "ret" and isinstance(v[1], int):
+                    path.heap = dict(path.heap)
+                    path.heap[v[1]] = path.heap.get(v[1], ()) + (t,)
+                    break
+                if v[0] in ("proj", "cast", "clone", "copy"):
+                    v = v[1]
+                elif v[0] in ("via", "conv"):
+                    v = v[2]
+                elif v[0] == "with":
+                    v = v[1]
+                else:
+                    break
         for k in [k for k in path.mem if k == p or (k.startswith(p) and k[len(p)] in ".@[^")]:
             del path.mem[k]
         path.mem[p] = t
@@ -182,6 +204,9 @@ class Executor:
         if s.startswith("copy ") or s.startswith("move "):
             return self.read(parse_place(s[5:]), path)
         # bare place
+        if not s.startswith(("_", "(")):
+            # a function item passed as a value (e.g. `map_err(Into::into)`)
+            return ("fnitem", s[:160])
         return self.read(parse_place(s), path)
 
     def operand_place(self, s):
@@ -267,7 +292,23 @@ class Executor:
             return
         if rv.startswith("{closure@") or rv.startswith("{coroutine@") or rv.startswith("{async"):
             # closure value; captured operands, if any, follow after the location
-            self.write(dst, ("closure", rv.split(" ")[0][:120]), path)
+            caps = ()
+            m = re.match(r"^\{[^}]*\} \{ (.*) \}$", rv)
+            if m:
+                try:
+                    caps = tuple(self.operand(x.split(": ", 1)[1], path) for x in split_top(m.group(1)) if ": " in x)
+                    # a captured reference: also what it points to now
+                    extra = []
+                    for c in caps:
+                        if isinstance(c, tuple) and c and c[0] == "ref":
+                            try:
+                                extra.append(("pointee", c[1], self.read(c[1], path)))
+                            except Exception:
+                                pass
+                    caps = caps + tuple(extra)
+                except (ValueError, Unsupported, IndexError):
+                    caps = ()
+            self.write(dst, ("closure", rv.split(" ")[0][:120], caps) if caps else ("closure", rv.split(" ")[0][:120]), path)
             return
         # struct literal  Type { f: op, ... }
         m = re.match(r"^([\w:<>, '&\[\]]+?) \{ (.*) \}$", rv)
@@ -303,7 +344,15 @@ class Executor:
                 pass
         m = re.match(r"^\[(.*)\]$", rv)
         if m:
-            self.write(dst, ("array", rv[:60]), path)
+            body = m.group(1)
+            parts = split_top(body)
+            if len(parts) == 1 and "; " in body:
+                parts = [body.rsplit("; ", 1)[0]]
+            try:
+                ops = tuple(self.operand(x, path) for x in parts if x.strip())
+            except (ValueError, Unsupported):
+                ops = (rv[:60],)
+            self.write(dst, ("array", ops), path)
             return
         raise Unsupported("rvalue: " + rv[:200])
 
@@ -504,6 +553,12 @@ class Executor:
                 path.end = ("diverge", m.group(1)[:120])
                 self.paths.append(path)
                 return
+            m = re.match(r"^(?:_\d+ = )?(?:core::panicking::|std::rt::)?(panic\w*|begin_panic\w*|unreachable_display)\((.*)\) -> bb\d+$", t)
+            if m:
+                # a diverging panic whose only successor is the cleanup path
+                path.end = ("panic", m.group(2)[:120])
+                self.paths.append(path)
+                return
             raise Unsupported("terminator: " + t[:200])
 
     def is_coroutine(self):
@@ -546,8 +601,8 @@ class Executor:
         pointees = {}
         for k, a in enumerate(args):
             b = a
-            while isinstance(b, tuple) and b and b[0] == "via":
-                b = b[2]
+            while isinstance(b, tuple) and b and b[0] in ("via", "cast"):
+                b = b[2] if b[0] == "via" else b[1]
             if isinstance(b, tuple) and b and b[0] == "ref":
                 try:
                     pointees[k] = (b[1], self.read(b[1], path))
@@ -602,6 +657,10 @@ class Executor:
                 return ("tuple", (("subslice", s0, 0, k), ("restslice", s0, k)))
         if short.endswith("::checked_add") and len(args) == 2:
             return ("checked", "Add", args[0], args[1])
+        if short.endswith("::saturating_add") and len(args) == 2:
+            return ("saturating", "Add", args[0], args[1])
+        if short.endswith("::wrapping_add") and len(args) == 2:
+            return ("wrapping", "Add", args[0], args[1])
         if short.endswith("Into::into") or short.endswith("From::from"):
             return ("conv", short_type_pair(callee), args[0])
         return None
